@@ -375,6 +375,7 @@ selectmechanism:
 		} else {
 			return mask, nil, errUnexpectedPayload
 		}
+		return Authn, session.Conn(), nil
 	}
 
 	success := false
@@ -425,6 +426,22 @@ selectmechanism:
 		}
 		err = w.Flush()
 		if err != nil {
+			return mask, nil, err
+		}
+	}
+	if !success {
+		// The mechanism has completed (the final message arrived in a challenge)
+		// but the server has not told us that we are authenticated: only a
+		// success element does that.
+		tok, err := d.Token()
+		if err != nil {
+			return mask, nil, err
+		}
+		t, ok := tok.(xml.StartElement)
+		if !ok {
+			return mask, nil, errUnexpectedPayload
+		}
+		if _, _, err = decodeSASLChallenge(d, t, false); err != nil {
 			return mask, nil, err
 		}
 	}
